@@ -185,7 +185,10 @@ type Engine struct {
 	External map[string]bool
 	// Reverted marks open documents whose buffer was brought back to the disk text by a didChange
 	// (undo) rather than by a save.
-	Reverted     map[string]bool
+	Reverted map[string]bool
+	// ClientSaved: per open document, the text the editor last opened or saved (what the editor
+	// itself regards as the saved state, whatever the world did to the disk since)
+	ClientSaved  map[string]string
 	version      map[string]int
 	events       []pendingEvt
 	budget       int
@@ -456,6 +459,7 @@ func (e *Engine) exec(i int, op *Op) {
 			text = d
 		}
 		e.Open[op.Path] = text
+		e.ClientSaved[op.Path] = string(text)
 		d, ok := simfs.Content(Abs(op.Path))
 		e.Saved[op.Path] = ok && string(d) == string(text)
 		e.version[op.Path] = 1
@@ -505,6 +509,7 @@ func (e *Engine) exec(i int, op *Op) {
 		}
 		existed := simfs.Exists(Abs(op.Path))
 		simfs.WriteFile(Abs(op.Path), cur)
+		e.ClientSaved[op.Path] = string(cur)
 		e.Saved[op.Path] = true
 		delete(e.External, op.Path)
 		delete(e.Reverted, op.Path)
@@ -527,6 +532,7 @@ func (e *Engine) exec(i int, op *Op) {
 			return
 		}
 		delete(e.Open, op.Path)
+		delete(e.ClientSaved, op.Path)
 		delete(e.Saved, op.Path)
 		delete(e.External, op.Path)
 		delete(e.Reverted, op.Path)
@@ -733,6 +739,13 @@ func (e *Engine) DirtyDocs() []string {
 	return out
 }
 
+// ClientEdited: the open document's buffer differs from what the editor last opened or saved
+// (it has unsaved edits in the editor's own sense).
+func (e *Engine) ClientEdited(p string) bool {
+	cur, open := e.Open[p]
+	return open && string(cur) != e.ClientSaved[p]
+}
+
 // DiskFiles returns the current disk tree below Root as scenario files.
 func DiskFiles() []File {
 	var out []File
@@ -810,7 +823,7 @@ func runInBubble(t *testing.T, sc *Scenario, cfg simrt.Config, hooks Hooks, res 
 		}
 	}()
 	synctest.Test(t, func(t *testing.T) {
-		e := &Engine{sc: sc, res: res, hooks: hooks, byID: map[int]*Answer{}, sentAt: map[int]int{}, Open: map[string][]byte{}, Saved: map[string]bool{}, External: map[string]bool{}, Reverted: map[string]bool{}, version: map[string]int{}}
+		e := &Engine{sc: sc, res: res, hooks: hooks, byID: map[int]*Answer{}, sentAt: map[int]int{}, Open: map[string][]byte{}, Saved: map[string]bool{}, External: map[string]bool{}, Reverted: map[string]bool{}, ClientSaved: map[string]string{}, version: map[string]int{}}
 		e.budget = hooks.MaxSteps
 		if e.budget == 0 {
 			e.budget = DefaultMaxSteps
